@@ -522,3 +522,39 @@ def r7_table_integrity(chk, fx):
                 chk.instance("C05/R7", "insertion into a vacant slot only", name, c.loc(), holds=True)
     chk.instance("C05/R7", "request table: %d insertion site(s), %d removal site(s)" % (n_ins, n_rm), "netconf", None, holds=n_ins >= 1,
                  key="C05/R7 no-registration-site")
+    # (c) a slot changes state only where the protocol says so: Pending when the request is sent (rpc), Ready when its reply is parked
+    # (recv), Complete when its owner takes it (take) — and in private helpers only those three call.  Any other writer (a sweep over the
+    # table on close, a timeout reaper) takes replies away from requests that are still waiting for them.
+    roots = (c18.SESSION + "::rpc", c18.SESSION + "::recv", "netconf::session::OutstandingRequest::take")
+    callers = {}
+    for name, b in fx.mir.items():
+        if b.crate != "netconf":
+            continue
+        for c in b.calls():
+            tgt = None if c.macro else (c.rdef or c.defn)
+            if tgt in fx.mir:
+                callers.setdefault(tgt, set()).add(name.split("::{closure")[0])
+    allowed = set()
+    for name in fx.mir:
+        if name.split("::{closure")[0].startswith(roots):
+            allowed.add(name.split("::{closure")[0])
+    changed = True
+    while changed:
+        changed = False
+        for f, cs in callers.items():
+            if f not in allowed and cs and cs <= allowed and f.startswith("netconf::session::"):
+                allowed.add(f)
+                changed = True
+    n_w = 0
+    for name, b in sorted(fx.mir.items()):
+        if b.crate != "netconf" or "::tests::" in name:
+            continue
+        for bl in b.blocks:
+            for st in bl["stmts"]:
+                if st["k"] == "assign" and st["rv"]["k"] == "agg" and (st["rv"].get("adt") or "").endswith("session::OutstandingRequest"):
+                    n_w += 1
+                    ok = name.split("::{closure")[0] in allowed
+                    chk.instance("C05/R7", "slot state %s is written by rpc / recv / take (or a helper of theirs)" % st["rv"].get("variant"), name,
+                                 loc_of(st.get("sp")), holds=ok, key="C05/R7 slot-state-written-in %s" % T.strip_generics(name),
+                                 detail=None if ok else "a request that is still waiting finds its slot changed under it: its reply is refused or lost")
+    chk.floor("C05/R7 slot state writes", n_w, 3)
